@@ -292,7 +292,7 @@ static std::string run_history(const Args& a, long i) {
         // ---- (b) compaction -------------------------------------------------------------------------
         if (g.coin(0.25)) { try { c->rebase(); rebases++; before_tri.clear(); before_used.clear(); } catch (const std::exception& e) { mon.viol("c01.rebase_threw", e.what()); break; } mon.full_check("rebase", true); }
         // ---- (c) burst of direct operations ---------------------------------------------------------
-        if ((g.coin(0.25) || fan) && mon.viol_key.empty() && !lens && !tiny && !strip) {
+        if ((g.coin(0.25) || fan) && mon.viol_key.empty() && !lens && !tiny && !strip && cell_faces() >= 40) {   // (random collapses / swaps on a body of a dozen faces fold it: the thorough tier saw a cube turned inside out by 2-5 of them)
             int nops = fan ? g.range(1, 6) : g.range(1, 10); edge_set dummy;
             for (int k = 0; k < nops && mon.viol_key.empty(); k++) {
                 const auto& es = cell_tester::edges(*c); if (es.empty()) break;
